@@ -57,8 +57,9 @@ def ints(xs):
     return " ".join(str(int(x)) for x in xs)
 
 
-def run_driver(lines):
-    """pipes the op lines to the Lean driver, returns its output lines."""
+def run_driver(lines, driver="Driver.lean", soft=False):
+    """pipes the op lines to the Lean driver, returns its output lines (soft: None when the driver does not run,
+    e.g. because a generated file it imports is a stub that does not build)."""
     if not lines:
         return []
     with tempfile.NamedTemporaryFile("w", suffix=".ops", delete=False, dir=_scratch) as f:
@@ -66,9 +67,11 @@ def run_driver(lines):
         path = f.name
     t0 = time.time()
     with open(path) as fin:
-        r = subprocess.run(["lake", "env", "lean", "--run", "Driver.lean"], cwd=LEAN_DIR,
+        r = subprocess.run(["lake", "env", "lean", "--run", driver], cwd=LEAN_DIR,
                            stdin=fin, capture_output=True, text=True)
     os.unlink(path)
+    if r.returncode != 0 and soft:
+        return None
     if r.returncode != 0:
         raise RuntimeError("Lean driver failed: " + r.stderr[-2000:] + r.stdout[-2000:])
     out = r.stdout.split("\n")
